@@ -777,6 +777,13 @@ def c17(case, tr, res):
         seen[r['task']] = seen.get(r['task'], 0) + 1
         if seen[r['task']] > 1:
             tr.violate('C17', 'task_migrated_or_rerun', task=r['task'])
+        for o in tr.dowork:
+            if o is not r and o['machine'] == r['machine'] and \
+                    o['seq_enter'] < r['seq_enter'] and \
+                    (o.get('seq_exit') is None or o['seq_exit'] > r['seq_enter']):
+                tr.violate('C17', 'did_not_wait_for_busy_planned_machine', task=r['task'],
+                           machine=r['machine'], busy_with=o['task'], ingest=bool(o.get('ingest')))
+                break
     # non-triviality, measured: a task that was ready (all predecessors released by the
     # cluster, or a root at workflow start) but entered its planned machine later than the
     # first step in which the algorithm could have placed it
